@@ -60,6 +60,20 @@ fn gen_case(seed: u64, i: u64, thorough: bool) -> Case {
         let kind = ["ds", "ds", "tok", "lazy", "tokflex"][which as usize];
         return Case { kind: kind.into(), arg: ts.into(), muts, data: body };
     }
+    if i % 29 == 3 {
+        // header decoders on short and damaged input
+        let ts = *r.pick(&[objs::IMPLICIT_LE, objs::EXPLICIT_LE, objs::EXPLICIT_BE]);
+        let mut d = seeds::dataset_seed(r, ts);
+        if r.chance(1, 2) {
+            d = seeds::delimiter_soup(r, ts == objs::IMPLICIT_LE);
+        }
+        d.truncate(r.usize(0, 14));
+        for _ in 0..nmut {
+            muts.push(seeds::mutate_binary(r, &mut d, ts == objs::EXPLICIT_BE));
+        }
+        d.truncate(40);
+        return Case { kind: "hdr".into(), arg: ts.into(), muts, data: d };
+    }
     if i % 31 == 5 {
         // structural tokens in disorder: the reader state machines off the beaten track
         let implicit = r.chance(1, 2);
@@ -260,6 +274,7 @@ fn spawn_worker() -> Worker {
         .arg(exe)
         .env("RUST_BACKTRACE", "0")
         .env("MALLOC_ARENA_MAX", "1")
+        .env("TZ", "UTC")
         .stdin(Stdio::piped())
         .stdout(Stdio::piped())
         .stderr(Stdio::from(errf))
